@@ -317,7 +317,8 @@ pub fn load(text: &str, code_base: u64) -> Result<Prog, LoadErr> {
                 fixups.push((ins.len(), toks[1].to_string(), line));
                 Ins::Jal(0, usize::MAX)
             }
-            m if !m.chars().all(|c| c.is_ascii_alphanumeric() || c == '.' || c == '_') => {
+            // (mnemonics of this assembler syntax are spelled with these characters only)
+            m if !m.chars().all(|c| c.is_ascii_uppercase() || c.is_ascii_digit() || c == '.') => {
                 return Err(LoadErr::Text(Viol::new(Class::Text, format!("line {line}: `{t}` is neither an instruction nor a label nor a directive"))));
             }
             _ => return Err(bad("unknown mnemonic")),
